@@ -333,6 +333,12 @@ func run(c *hc.Ctx) {
 		{"or", "M0 3L2 2L0 0zM1 2L2 0L0 2z", "M3 1L1 0L3 2zM1 2L2 0L0 0z"},
 		{"and", "M2 0L1 2L0 3zM0 1L2 2L0 3z", "M2 3L0 2L1 1zM0 3L1 3L0 1z"},
 		{"not", "M0 2L2 0L2 2zM1 1L2 1L3 0z", "M2 1L1 1L2 0zM0 3L2 2L1 0z"},
+		// DivideBy (corpus/C01/div-rootcause.md): hole orientation, hole met by a cut, dead ends of
+		// cancelled overlapping segments
+		{"div", "M4 2L4 4L8 4L8 2zM3 -3L10 -3L10 5L3 5z", "M4 2L4 4L8 4L8 2zM3 -3L10 -3L10 5L3 5z"},
+		{"div", "M0 0L10 0L10 10L0 10zM3 3L3 6L6 6L6 3z", "M5 4L8 4L8 5L5 5z"},
+		{"div", "M0 0L10 0L10 10L0 10z", "M-1 5L5 5"},
+		{"div", "M-4 1L5 3L5 -4z", "M5 -4L1 2L5 -4L8 2L5 -4L0 -4L8 2z"},
 	} {
 		op := rc[0]
 		P, Q := canvas.MustParseSVGPath(rc[1]), canvas.MustParseSVGPath(rc[2])
@@ -350,7 +356,7 @@ func run(c *hc.Ctx) {
 			c.Fail("result-not-flat:"+op+"+recorded-sweep-input", "result is not a flat well-formed path", map[string]any{"op": op, "P": rc[1], "Q": rc[2], "R": R.String()})
 			continue
 		}
-		var pts []hc.P2
+		pts := c.SamplePoints(60, cp, cq, cr)
 		for x := -0.37; x < 3.5; x += 0.2113 {
 			for y := -0.41; y < 3.5; y += 0.1931 {
 				pts = append(pts, hc.P2{X: x, Y: y})
@@ -397,6 +403,9 @@ func run(c *hc.Ctx) {
 			op := ops[c.Intn(len(ops))]
 			cp, _ := hc.Contours(P)
 			cq, _ := hc.Contours(Q)
+			if c.Chance(0.2) && !hc.OverlappingEdges(cp, cq) {
+				op = "div" // strict since 3d5f44d/b3742d9 when no edges overlap collinearly
+			}
 			// since e1c72e9/1501096/4e53250 the whole class is handled correctly, shared edges included:
 			// no recorded defect applies (the suffix matches no known finding)
 			sg := "+small-grid"
